@@ -39,6 +39,12 @@ func c23ElemField(v ssa.Value, recv ssa.Value) (field string, idx ssa.Value, ok 
 			if a, ok := c21Load(x); ok {
 				return elemOf(a)
 			}
+		case *ssa.Alloc:
+			// `param := mfd.Parameters[i]` / `for i, param := range mfd.Parameters` with
+			// the copy's address taken: a cell initialised once with the element
+			if src := c23CopiedFrom(x); src != nil {
+				return elemOf(src)
+			}
 		}
 		return nil, false
 	}
@@ -55,6 +61,15 @@ func c23ElemField(v ssa.Value, recv ssa.Value) (field string, idx ssa.Value, ok 
 
 // c23Elem: v is &recv.Parameters[idx] (receiver of promptParameters).
 func c23Elem(v ssa.Value, recv ssa.Value) (ssa.Value, bool) {
+	if al, isAlloc := v.(*ssa.Alloc); isAlloc {
+		// address of a local copy of the element
+		if src := c23CopiedFrom(al); src != nil {
+			if a, ok := c21Load(src); ok {
+				return c23Elem(a, recv)
+			}
+		}
+		return nil, false
+	}
 	ia, ok := v.(*ssa.IndexAddr)
 	if !ok {
 		return nil, false
@@ -386,14 +401,30 @@ func (c *Ctx) c23CastTable(_ interface{}) {
 	seenSet := map[*ssa.Call]bool{}
 	for _, p := range paths {
 		known := map[string]bool{}
+		knownAt := map[string]int{}
 		var unknownConds []string
+		infeasible := false
 		for _, f := range p.Facts {
 			a, v, ok := classify(p, f)
 			if !ok {
 				unknownConds = append(unknownConds, c21Desc(f.Cond))
 				continue
 			}
+			at := c23InstrIndex(p, f.Cond)
+			if prev, seen := known[a]; seen && prev != v && (a == "Optional" || a == "HasDefault") {
+				// the declaration field is read twice (`if Optional && HasDefault {…}; if Optional {…}`)
+				// and the two reads disagree: impossible unless something in between may have
+				// written it (store / call) — such a path does not exist at run time
+				if !c23MayWriteBetween(p, knownAt[a], at) {
+					infeasible = true
+					break
+				}
+			}
 			known[a] = v
+			knownAt[a] = at
+		}
+		if infeasible {
+			continue
 		}
 		var fs []string
 		for _, n := range c23AtomNames {
@@ -574,5 +605,69 @@ func (c *Ctx) c23CastTable(_ interface{}) {
 	if okAcc {
 		c.OK("R23c", "castParameters:element-index", strCall.Pos(), "all %d accesses to mfd.Parameters[...] use the index of the argument being read", nAcc)
 	}
-	c.MinCount("R23c", "accesses to mfd.Parameters[i]", nAcc, 6)
+	// one access is enough: `param := &mfd.Parameters[i]` serves every later use
+	c.MinCount("R23c", "accesses to mfd.Parameters[i]", nAcc, 1)
+}
+
+// c23InstrIndex: position on the path of the instruction that computes v (-1 when
+// v is not an instruction of the path).
+func c23InstrIndex(p *c21Path, v ssa.Value) int {
+	in, ok := v.(ssa.Instruction)
+	if !ok {
+		return -1
+	}
+	for i, x := range p.Instrs {
+		if x == in {
+			return i
+		}
+	}
+	return -1
+}
+
+// c23MayWriteBetween: some instruction strictly between positions i and j of the
+// path may write memory (store, map update, any call). Unknown positions count
+// as "may write".
+func c23MayWriteBetween(p *c21Path, i, j int) bool {
+	if i < 0 || j < 0 || i > j {
+		return true
+	}
+	for _, in := range p.Instrs[i+1 : j] {
+		switch in.(type) {
+		case *ssa.Store, *ssa.MapUpdate, ssa.CallInstruction, *ssa.Send:
+			return true
+		}
+	}
+	return false
+}
+
+// c23CopiedFrom: the local cell al is written exactly once, as a whole, and none
+// of its fields is assigned — returns the value it was initialised with.
+func c23CopiedFrom(al *ssa.Alloc) ssa.Value {
+	refs := al.Referrers()
+	if refs == nil {
+		return nil
+	}
+	var stored ssa.Value
+	n := 0
+	for _, r := range *refs {
+		switch x := r.(type) {
+		case *ssa.Store:
+			if x.Addr == ssa.Value(al) {
+				n++
+				stored = x.Val
+			}
+		case *ssa.FieldAddr:
+			if fr := x.Referrers(); fr != nil {
+				for _, rr := range *fr {
+					if st, ok := rr.(*ssa.Store); ok && st.Addr == ssa.Value(x) {
+						return nil
+					}
+				}
+			}
+		}
+	}
+	if n != 1 {
+		return nil
+	}
+	return stored
 }
